@@ -162,3 +162,29 @@ PLANS["C19"] = dict(
     assumptions=["goroutine scheduling between gates is sequentialised by the controller; within a visit the Go scheduler decides"],
     trusted_base=["TLC 2026.09.04", "CommunityModules Json/IOUtils", "Go race detector", "quadtree/verif_walk.go"],
 )
+
+# ---- C03 -------------------------------------------------------------------------------------------
+
+
+def run_c03(ctx):
+    ctx.mc("MvtMC", "MvtMC_%s.cfg" % ctx.tier, note="points/lines incl. |v| = 2^28-1: Decode(Encode(g)) = Canon(g); zig-zag bijective; decoder total on short word sequences")
+    ctx.mc("MvtMC", "MvtMC_rings_%s.cfg" % ctx.tier, note="rings/polygons/multipolygons of triangles: regrouping by winding gives Canon(g)")
+    shards = ctx.gen("mvt")
+    ctx.validate("Mvt_Trace", shards)
+
+
+def sig_c03(ev):
+    if ev.get("_alt"):
+        return "mvt.Marshal:collection-members-after-first-dropped"
+    return sig_default(ev)
+
+
+PLANS["C03"] = dict(
+    run=run_c03, signature=sig_c03,
+    technique="TLA+ state machines for the MVT command-stream encoder/decoder and the key/value tables; TLC model-checks Decode(Encode(g)) = Canon(g) and validates traces of real Marshal/Unmarshal calls byte-structure for byte-structure",
+    level_text="TLC checks on all small geometries (points/lines over {+-(2^28-1), -1, 0, 2}, rings/polygons/multipolygons of triangles) that the decoder state machine applied to the encoder state machine's command words yields Canon(g), that zig-zag is bijective there and that the decoder is total on every sequence of <=4 (5) command words over a 10-word alphabet. For seeded layer lists (all kinds, |v| < 2^28 for points/lines, |v| <= 8192 for polygons, every Go numeric kind, nil, slices, maps, colliding numbers of different types, ids, versions, extents) TLC then requires: the tile message read back through the generated protobuf type equals the specified encoding exactly (keys, values, tags, command words), three repeated marshals are byte-identical, Unmarshal and UnmarshalGzipped return Canon of the input with widened numbers.",
+    level_note="Polygon kinds are judged by TLC only for |v| <= 8192 (the ring-regrouping shoelace needs 57 bits at 2^28; TLC integers are 32-bit); the cursor/zig-zag path is exercised to 2^28 on point and line kinds. NaN and -0 property values are not generated (Go map keys treat them specially). Nested or empty collections make Marshal return an error and are outside the quantifier. Trusted: TLC, Json module, gogo/protobuf vectortile.Tile.Unmarshal as the lens on the bytes, encoding/json for uncomparable values, bit interning.",
+    rule="one event = one layer list with the tile message and both decoded results; non-trivial = at least one feature with a geometry; distinct = distinct event text",
+    assumptions=["the generated protobuf type reads the tile bytes faithfully", "outer rings counter-clockwise and holes clockwise with non-zero area (asserted by the spec per event)"],
+    trusted_base=["TLC 2026.09.04", "CommunityModules Json/IOUtils", "vectortile.Tile.Unmarshal (generated code)", "harness interning"],
+)
